@@ -16,7 +16,7 @@ NAMES = ['a', 'b', 'a.txt', 'A', 'foo', 'foo bar', 'é', 'x%y', 'n+1', '-d',
 def config(tier):
     return {
         'level': 'exploration',
-        'cases': 100 if tier == 'quick' else 6000,
+        'cases': 450 if tier == 'quick' else 6000,
         'budget_s': 55 if tier == 'quick' else 570,
         'floors': {'cases': 40, 'steps': 500, 'list_comparisons': 500,
                    'disk_comparisons': 500, 'puts_added': 200,
